@@ -384,6 +384,7 @@ class BoltzTranslator:
 
     # -- the method --------------------------------------------------------------------
     def build(self):
+        self.static_method("_feq")
         self.static_method("_dfeq")
         fn = self.fn.get("buildLinearEquations")
         if fn is None:
